@@ -51,7 +51,7 @@ PK_VARIANTS = {
     "ed25519": ("ed25519", "ssh-ed25519"),
 }
 SIG_KINDS = ["absent", "good", "alt_sid", "omit_sid", "alt_user", "alt_service", "alt_alg", "alt_key", "wrong_key", "corrupt",
-             "label_other", "label_garbage"]
+             "label_other", "label_garbage", "cur_hash"]
 MIC_KINDS = ["good", "alt_sid", "alt_user"]
 
 _other_keys = {}
@@ -426,6 +426,8 @@ class AuthSession:
             if other is not None:
                 b_alg = other          # a genuine signature for the other RSA algorithm (blob and hash), request says alg
                 sign_alg = other
+        elif sig == "cur_hash":
+            b_sid = bytes(self.tc.H)      # exchange hash of the most recent key exchange (= session id until a re-exchange)
         elif sig not in ("good", "corrupt", "omit_sid"):
             raise Machinery("unknown signature kind %r" % (sig,))
         m = Message()
@@ -673,7 +675,7 @@ def real_other_session_id():
 from harness.core import cfg_text  # noqa: E402
 
 TOGGLES = {"GssHonoursCallback": True, "BlobOmits": "", "KeepsResultAfterBadSig": False, "KeepsResultOnForeignLabel": False,
-           "RekeyResetsAuthState": False, "PkOkCachesApproval": False, "EmptyListPromotesPartial": False, "OnlyConstantsReject": False, "UnpinnedUser": "",
+           "RekeyResetsAuthState": False, "PkOkCachesApproval": False, "EmptyListPromotesPartial": False, "OnlyConstantsReject": False, "BlobUsesCurrentHash": False, "UnpinnedUser": "",
            "ServiceRequestResets": False,
            "ProbeAuthenticates": False, "PinsUser": True, "PartialCounts": False, "CapOffset": 0}
 ALL_CONFIGS = {"plain", "gss", "gss+ctx", "gss+bound", "gss+ctx+bound"}
